@@ -21,6 +21,9 @@
 // leak into other sequences); such sequences are never extended, and gated instances whose trigger is frequent are only
 // enumerated up to the gate depth.  In the AddressSanitizer flavour every gate is probed once at start-up and removed when
 // the sanitizer sees nothing in any of its probes (i.e. after the defect has been repaired).
+// After the repairs in /repo (ClassSet::reMax 7acf870, SVSetBase::add(keys,svecs,n) d72a9c5, IdxSet::remove(n,m) 21062be,
+// DataArray::reMax 9c5bb2b, Array::insert 2ed3dba) those gates were deleted: the operations run in-process at every depth in
+// both flavours.  Only gate 3 (xtend of the last vector, KF-C19-svset-xtend-pack-realloc, still open) remains.
 #include "soplex/spxdefines.h"
 #include "soplex/rational.h"
 #include "soplex/dataset.h"
@@ -429,7 +432,7 @@ struct SetSys
    static std::vector<ProbeSeq> probes()
    {
       std::vector<ProbeSeq> v;
-      if(ISCLASS) v.push_back({1, 1, {Op(16, 0)}});       // three elements in a set of capacity 4: reMax(0) shrinks the capacity
+      // (gate 1, ClassSet::reMax to a smaller capacity, removed: repaired in /repo 7acf870)
       return v;
    }
 
@@ -488,16 +491,7 @@ struct SetSys
       if(full) o.push_back(Op(20));
    }
    int reMaxArg(const Op& op) const { return op.a == 0 ? 0 : op.a == 1 ? max + 1 : max + 3; }
-   int gate(const Op& op) const
-   {
-      if(ISCLASS && op.k == 16)
-      {
-         int want = reMaxArg(op);
-         int eff = want < s->size() ? s->size() : want;
-         if(eff < s->max()) return 1;       // ClassSet::reMax to a smaller capacity writes max() items into newmax slots
-      }
-      return 0;
-   }
+   int gate(const Op&) const { return 0; }      // former gate 1 (ClassSet::reMax to a smaller capacity) removed: repaired in /repo 7acf870
    std::string tag(const Op& op) const
    {
       if(op.k == 16) { int want = reMaxArg(op); int eff = want < s->size() ? s->size() : want; return eff < s->max() ? "|shrink" : (eff > s->max() ? "|grow" : "|same"); }
@@ -791,7 +785,7 @@ struct SVSetSys
    static bool gate_rare(int g) { return g == 3; }     // gates whose trigger is rare are run (isolated) at every depth
    static std::vector<ProbeSeq> probes()
    {
-      return {{1, 1, {Op(22, 0)}}, {2, 1, {Op(2, 0)}}, {3, 0, {Op(7), Op(8, 0), Op(8, 0)}}};
+      return {{3, 0, {Op(7), Op(8, 0), Op(8, 0)}}};      // gates 1 (reMax shrink) and 2 (add(keys,svecs,0)) removed: repaired in /repo 7acf870, d72a9c5
    }
 
    SVSetBase<double>* s;
@@ -879,8 +873,6 @@ struct SVSetSys
    }
    int gate(const Op& op) const
    {
-      if(op.k == 22 && op.a == 0 && s->set.size() < s->max()) return 1;      // SVSetBase::reMax(0) -> ClassSet::reMax to a smaller capacity
-      if(op.k == 2 && op.a == 0) return 2;                                    // add(keys, svecs, 0): loop "for(...; --n; ...)" never terminates
       if(xtendBad(op)) return 3;
       return 0;
    }
@@ -1211,7 +1203,7 @@ struct LPSetSys
       return (k >= 0 && k < 23) ? N[k] : "?";
    }
    static bool gate_rare(int g) { return g == 3; }     // gates whose trigger is rare are run (isolated) at every depth
-   static std::vector<ProbeSeq> probes() { return {{1, 1, {Op(13, 0)}}, {3, 0, {Op(4), Op(5, 0), Op(5, 0)}}}; }
+   static std::vector<ProbeSeq> probes() { return {{3, 0, {Op(4), Op(5, 0), Op(5, 0)}}}; }      // gate 1 (reMax shrink) removed: repaired in /repo 7acf870
 
    Set* s;
    KeyedModel m;
@@ -1280,7 +1272,6 @@ struct LPSetSys
    }
    int gate(const Op& op) const
    {
-      if(op.k == 13 && op.a == 0 && s->set.size() < s->max()) return 1;
       if(xtendBad(op)) return 3;
       return 0;
    }
@@ -1492,7 +1483,7 @@ struct IdxSys
       return (k >= 0 && k < 12) ? N[k] : "?";
    }
    static bool gate_rare(int g) { return g == 3; }     // gates whose trigger is rare are run (isolated) at every depth
-   static std::vector<ProbeSeq> probes() { return {{1, 1, {Op(4, 0, 2)}}}; }
+   static std::vector<ProbeSeq> probes() { return {}; }      // gate 1 (IdxSet::remove(n,m) up to the last index) removed: repaired in /repo 21062be
    static const int U = 6;        // universe of index values 0..5
 
    int buf[8];
@@ -1540,7 +1531,7 @@ struct IdxSys
          if(full) o.push_back(Op(10));
       }
    }
-   int gate(const Op& op) const { return (op.k == 4 && op.b == (int)m.size() - 1) ? 1 : 0; }   // IdxSet::remove(n,m) up to the last index
+   int gate(const Op&) const { return 0; }
    std::string tag(const Op& op) const { return (op.k == 4) ? (op.b == (int)m.size() - 1 ? "|range-reaches-last-index" : "|inner-range") : ""; }
 
    void other(IdxSet& o, int cnt, std::vector<int>& vals) { for(int j = 0; j < cnt; ++j) { int v = (j * 5 + 1) % U; o.addIdx(v); vals.push_back(v); } }
@@ -1949,9 +1940,7 @@ struct ArrSys
    static bool gate_rare(int g) { return g == 3; }     // gates whose trigger is rare are run (isolated) at every depth
    static std::vector<ProbeSeq> probes()
    {
-      if(KIND == 0) return {{1, 1, {Op(12, 0)}}};
-      if(KIND == 1) return {{1, 1, {Op(4, 0)}}, {1, 1, {Op(5, 0)}}, {1, 1, {Op(6, 0)}}, {1, 0, {Op(0), Op(6, 0)}}};
-      return {};
+      return {};      // probes of the former gates removed together with the gates (see gate())
    }
    A* a;
    std::vector<int> m;
@@ -2007,12 +1996,7 @@ struct ArrSys
       o.push_back(Op(13));
       if(full) o.push_back(Op(14));
    }
-   int gate(const Op& op) const
-   {
-      if(KIND == 0 && op.k == 12 && op.a == 0 && (int)m.size() > 1) return 1;    // DataArray::reMax(1) with size() > 1: realloc below size()
-      if(KIND == 1 && op.k >= 4 && op.k <= 7 && op.a == 0) return 1;             // Array::insert(0,...): iterator begin() - 1
-      return 0;
-   }
+   int gate(const Op&) const { return 0; }      // former gates (DataArray::reMax below size(), Array::insert(0,...)) removed: repaired in /repo 9c5bb2b, 2ed3dba
    std::string tag(const Op& op) const
    {
       if(KIND == 1 && op.k >= 4 && op.k <= 7) return op.a == 0 ? "|at-front" : "|not-at-front";
